@@ -5,11 +5,35 @@ from __future__ import annotations
 import functools
 
 PARSE_LOG = []     # (name, args, result, exception-name)
+RECV_LOG = []      # (connection id, receiving side 'client'|'server', message or None, exception)
 _on = [True]
 
 
 def reset():
     del PARSE_LOG[:]
+    del RECV_LOG[:]
+
+
+def _wrap_receive(fn):
+    """MessageInterface.receive_message: what every receiver of a session was handed, per
+    connection and side (C19: received intact and in order however the bytes were split)."""
+    @functools.wraps(fn)
+    def w(self, *a, **k):
+        sock = getattr(self, 'connection_socket', None)
+        sock = getattr(sock, '_sock', sock)          # the harness's send-observing proxy
+        conn = getattr(sock, '_conn', None)
+        key = (getattr(conn, 'cid', None), getattr(sock, '_side', None))
+        try:
+            r = fn(self, *a, **k)
+        except Exception as e:
+            if _on[0]:
+                RECV_LOG.append((key[0], key[1], None, type(e).__name__))
+            raise
+        if _on[0]:
+            RECV_LOG.append((key[0], key[1], r, None))
+        return r
+    w._verif_wrapped = True
+    return w
 
 
 def _snap(r):
@@ -59,6 +83,9 @@ def install(mods):
         (cl.Client, 'parse_leader_message'),
         (sv.PlayerThread, 'parse_connection_info'),
     ]
+    rm = si.MessageInterface.__dict__.get('receive_message')
+    if rm is not None and not getattr(rm, '_verif_wrapped', False):
+        si.MessageInterface.receive_message = _wrap_receive(rm)
     for cls, name in targets:
         raw = cls.__dict__.get(name)
         if raw is None:
